@@ -1,6 +1,7 @@
 import DmrVerif.Lemmas.Codes
 import DmrVerif.Lemmas.Count
 import DmrVerif.Gen.Codes
+import DmrVerif.Spec.EtsiCodes
 
 /-!
 # C06 — Hamming, Golay and quadratic-residue codes: exact code word sets and correction
@@ -32,6 +33,12 @@ theorem all_minWeight : codes.all Code.minWeightOk = true := by decide +kernel
 theorem hamming_cols : hammingCodes.all Code.colsOk = true := by decide +kernel
 
 theorem h16114_pairs : h16114.pairsOk = true := by decide +kernel
+
+/-- the generator matrices in /repo are the ones of ETSI TS 102 361-1 Annex B.3 (reference copy in
+`Spec/EtsiCodes.lean`): the code word sets are *exactly* the standard's -/
+theorem generators_are_etsi : codes.map (·.G)
+    = [Spec.h743G, Spec.h1393G, Spec.h15113G, Spec.h16114G, Spec.h17123G, Spec.golay2087G, Spec.qr1676G] := by
+  decide +kernel
 
 theorem wf {C : Code} (h : C ∈ codes) : C.WFProp :=
   Code.wf_of_WF C (List.all_eq_true.mp all_wf C h)
